@@ -18,7 +18,8 @@ MANIFEST = {
             "C_offoff is invertible AND, without invertibility, whenever the whole matrix is symmetric PSD; for symmetric PSD C the "
             "excess residual variance of any competitor R' is tr((R'-R)C_offoff(R'-R)^T) >= 0 (all R' for rcond=0, all R' supported "
             "on the retained subspace for rcond>0), J being proved equal to the summed squared residual of any sample whose second "
-            "moments are C; a duplicated on-axis sensor gives exactly the selection matrix (weight 1 on that sensor, 0 elsewhere); "
+            "moments are C; a duplicated on-axis sensor gives exactly the selection matrix E (weight 1 on that sensor, 0 elsewhere) for "
+            "rcond=0 and INVERTIBLE C_offoff, and for singular PSD C only R*C_offoff = E*C_offoff (zero-variance difference); "
             "the method passes n_subaps[0]. The hand-written model is tied to the code by running the same Lean definitions at "
             "binary64: slices, product order, rcond pass-through and the wrapper are compared EXACTLY on integer matrices with an "
             "integer stand-in kernel; numpy's pinv is compared with the model's pinvFromSvd on numpy's own SVD factors and the "
@@ -37,10 +38,14 @@ MANIFEST = {
 REQUIRED = ["recon_eq", "wrapper", "normal_eq_retained", "retained_projector", "retained_reduces", "normal_eq_full",
             "normal_eq_psd", "residual_eq_J", "optimal", "reconstructor_optimal", "optimal_retained", "duplicate_matrix",
             "optimal_strict", "reconstructor_optimal_retained", "duplicate", "duplicate_reproduces", "J_eq_sum_sq",
-            "contract_penrose", "contract_cutoff"]
+            "contract_penrose", "contract_cutoff", "conoff_eq_sel", "duplicate_psd"]
 
 TOL64 = 1e-9       # relative tolerance for float64 pipelines (generated cond(C_offoff) <= 1e3 on the retained subspace)
 TOL32 = 2e-3       # relative tolerance when the covariance matrix is float32 (generated cond <= 30; end-to-end cond <= 2e3)
+# hand-made duplicate sensor: |R - E_k|max <= DUP_TOL * q (q = number of off-axis slopes, 2..24; cond(C_offoff) <= 1e3 / 30).
+# Observed on the clean tree, 12 seeds x 200 cases: 3.5e-15*q (float64), 1.5e-7*q (float32).  The float32 value used to be
+# 100*TOL32 = 0.2*q, i.e. >= 1 from q = 5 on, so that R = 0 passed; 1e-4*q <= 2.4e-3 keeps a 700-fold margin.
+DUP_TOL = {"float64": 1e-7, "float32": 1e-4}
 
 
 def sc():
@@ -236,9 +241,11 @@ def correspondence(chk, quick):
             except Exception as ex:
                 chk.broke("correspondence", "the real method raised %s: %s (n_subaps=%s)" % (type(ex).__name__, ex, subs))
                 continue
-            if R2 is not obj.tomographic_reconstructor:
-                chk.fail("state:attribute", "make_tomographic_reconstructor returns something else than it stores",
-                         {"n_subaps": subs})
+            if R2 is not getattr(obj, "tomographic_reconstructor", None):
+                # HOW the method keeps its result (an attribute holding the very object it returns) is the model's reading of the
+                # code, not something the property demands: a refactoring that returns a copy is harmless
+                chk.broke("correspondence", "make_tomographic_reconstructor returns an object that is not the one it stores in "
+                          "self.tomographic_reconstructor (model: stored and returned are the same; n_subaps=%s)" % subs)
             chk.count("corr:wrap:k%d" % k)
             add("C02 wrap %d %s %s %s" % (k, " ".join(map(str, subs)), common.f2h(rc), fl(C)), numpy.asarray(R, dtype=float),
                 (2 * subs[0], N - 2 * subs[0]), ("wrap", tuple(subs), rc, it), True,
@@ -474,13 +481,15 @@ def oracle_handmade(chk, quick):
         chk.count("oracle:duplicate-handmade:%s" % numpy.dtype(dt).name)
         chk.case(("dup-handmade", tuple(sizes), dup, it), sample={"sizes": sizes, "dup": dup} if it < 2 else None)
         err = float(numpy.abs(R - Ek).max()) if R.shape == Ek.shape else float("inf")
-        if not within(chk, "duplicate:handmade:%s" % numpy.dtype(dt).name, err, tol * 1e2 * q):
+        dtol = DUP_TOL[numpy.dtype(dt).name] * q
+        if not within(chk, "duplicate:handmade:%s" % numpy.dtype(dt).name, err, dtol):
             chk.fail("duplicate:handmade:%s" % numpy.dtype(dt).name,
                      "on-axis sensor duplicates off-axis sensor %d but R differs from the selection matrix by %.3g (sizes %s, n=%d)"
-                     % (dup, err, sizes, n), {"sizes": sizes, "dup": dup, "n": n, "C": C.astype(float).tolist()})
+                     % (dup, err, sizes, n), {"sizes": sizes, "dup": dup, "n": n, "dtype": numpy.dtype(dt).name,
+                                              "C": C.astype(float).tolist()})
         else:
             s_off = nprng.normal(size=q)
-            if not numpy.abs(R @ s_off - s_off[k0:k0 + 2 * n]).max() <= tol * 1e2 * q * numpy.abs(s_off).sum():
+            if not numpy.abs(R @ s_off - s_off[k0:k0 + 2 * n]).max() <= dtol * numpy.abs(s_off).sum():
                 chk.fail("duplicate:reproduce", "R*s_off does not reproduce the duplicated sensor's slopes", {"sizes": sizes, "dup": dup})
 
 
@@ -647,7 +656,8 @@ def run(chk):
                 "product order, rcond, wrapper; residual-variance functional), |impl-model| <= 1e-12 (float64) / 1e-5 (float32) x scale "
                 "for the recorded-kernel product and numpy pinv vs pinvFromSvd(numpy svd); contract fields checked per call. Oracle: "
                 "normal equations full/retained, retained support, J against competitors, excess identity, duplicate sensor; relative "
-                "tolerance 1e-9 (float64, cond<=1e3) / 2e-3 (float32, cond<=30; end-to-end 1e-2 with cond<=2e3). distinct = distinct "
+                "tolerance 1e-9 (float64, cond<=1e3) / 2e-3 (float32, cond<=30; end-to-end 1e-2 with cond<=2e3); hand-made duplicate "
+                "sensor |R-E_k| <= 1e-7*q (float64) / 1e-4*q (float32). distinct = distinct "
                 "(size, partition, kind, dtype, instance)")
     chk.assumptions = [
         "numpy.linalg.pinv/svd meet the SVD-truncation contract NumpyPinv (orthogonal factors, s>=0, A=U diag(s) Vt, "
@@ -656,6 +666,10 @@ def run(chk):
         "NumPy slicing/dot semantics are tied to the model by the exact integer correspondence only (sizes 3..12 quick, 3..30 thorough)",
         "expectation reading: J = E|s_on - R s_off|^2 is proved for finite samples (J_eq_sum_sq); the passage from an ensemble "
         "covariance to an expectation is the standard probabilistic bridge of DESIGN §3.4",
+        "duplicate-sensor clause: `duplicate_matrix`/`duplicate`/`duplicate_reproduces` assume rcond = 0 AND IsUnit(det C_offoff); for a "
+        "singular PSD C only R*C_offoff = E*C_offoff is proved (`duplicate_psd`) — pinv then returns the minimum-norm solution, which "
+        "need not be the selection matrix; the oracle's duplicate cases have cond(C_offoff) <= 1e3 (float64) / 30 (float32) / 2e3 "
+        "(end-to-end), exactly singular matrices with rcond = 0 are not evaluated (nothing holds 'to rounding' there)",
         "end-to-end cases: co-located point-symmetric and general geometries, equal sub-aperture diameters (C01 covers the builder itself); builder "
         "outputs that are not symmetric PSD are skipped and counted, not judged",
     ]
@@ -699,8 +713,8 @@ def replay(rec):
             Ek = numpy.zeros((p, q))
             Ek[numpy.arange(p), k0 + numpy.arange(p)] = 1
             err = float(numpy.abs(R - Ek).max())
-            print("replay: |R - E_k|max = %.3g (tolerance %.3g)" % (err, tol * 1e2 * q))
-            return int(not err <= tol * 1e2 * q)
+            print("replay: |R - E_k|max = %.3g (tolerance %.3g)" % (err, DUP_TOL[dt.name] * q))
+            return int(not err <= DUP_TOL[dt.name] * q)
         Pi = numpy.eye(q) if rcond == 0 else retained_projector(A, rcond)[0]
         res = float(numpy.abs(R @ A - Conoff @ Pi).max())
         lim = tol * (numpy.abs(Conoff).max() * q + 1e-300)
